@@ -62,4 +62,48 @@ Bad(x) ==
      ELSE IF \E row \in U : ValOn(res, env, U, row) # ExpVal(x, LVal(x, row), RVal(x, row), res.w) THEN "Arith"
      ELSE ""
 
+
+(***************************************************************************)
+(* fixed-point cases:  [op, l, r]  with operands                             *)
+(*   [k |-> "fx", i, f]  argument of layout <<i, f>>                         *)
+(*   [k |-> "flt", num, den]  float literal        [k |-> "int", v]  int     *)
+(* ops: Add, Sub, the comparisons, Mult (fixed * int literal).              *)
+(***************************************************************************)
+FxOperand(o, p) == IF o.k = "fx" THEN FX(o.i, o.f, ArgBits(p, o.i + o.f)) ELSE FxLiteral(o.num, o.den)
+FxInputs(x) == (IF x.l.k = "fx" THEN [j \in 1..(x.l.i + x.l.f) |-> BitName("a", j - 1)] ELSE <<>>)
+               \o (IF x.r.k = "fx" THEN [j \in 1..(x.r.i + x.r.f) |-> BitName("b", j - 1)] ELSE <<>>)
+FxRejected(x) == x.op # "Mult" /\ (LET l == FxOperand(x.l, "a") r == FxOperand(x.r, "b") IN l.w = 0 \/ r.w = 0 \/ FxRejects(l, r))
+FxResult(x) ==
+  LET l == FxOperand(x.l, "a") IN
+  IF x.op = "Mult" THEN FxMulConst(l, x.r.v)
+  ELSE LET r == FxOperand(x.r, "b") IN
+       CASE x.op = "Add" -> FxAdd(l, r)
+         [] x.op = "Sub" -> FxSub(l, l, r)
+         [] x.op = "Eq" -> FX(1, 0, <<FxEq(l, r)>>) [] x.op = "NotEq" -> FX(1, 0, <<FxNeq(l, r)>>)
+         [] x.op = "Gt" -> FX(1, 0, <<FxGt(l, r)>>) [] x.op = "Lt" -> FX(1, 0, <<FxLt(l, r)>>)
+         [] x.op = "LtE" -> FX(1, 0, <<FxLte(l, r)>>) [] x.op = "GtE" -> FX(1, 0, <<FxGte(l, r)>>)
+\* scaled value of a fixed-point bit-vector on a row: value * 2^f
+FxValOn(v, env, U, row) ==
+  LET q == ToQintRepr(v)
+      RECURSIVE F(_) F(j) == IF j > Len(q) THEN 0 ELSE (IF row \in SemN(q[j], env, U) THEN 2^(j - 1) ELSE 0) + F(j + 1) IN F(1)
+\* what arithmetic says: operands as scaled integers in the joined layout <<I, F>>
+FxBad(x) ==
+  LET ins == FxInputs(x)
+      U == Rows(Len(ins))
+      env == InputEnv(ins, U)
+      res == FxResult(x)
+      l == FxOperand(x.l, "a")
+      r == IF x.op = "Mult" THEN l ELSE FxOperand(x.r, "b")
+      I == Max(l.i, r.i)
+      F == Max(l.f, r.f)
+      LS(row) == FxValOn(l, env, U, row) * (2^(F - l.f))
+      RS(row) == IF x.op = "Mult" THEN x.r.v ELSE FxValOn(r, env, U, row) * (2^(F - r.f))
+      cmp(a, b) == CASE x.op = "Eq" -> a = b [] x.op = "NotEq" -> a # b [] x.op = "Gt" -> a > b
+                     [] x.op = "Lt" -> a < b [] x.op = "LtE" -> a <= b [] x.op = "GtE" -> a >= b
+  IN IF x.op \in Cmps THEN (IF SemN(res.bits[1], env, U) = {row \in U : cmp(LS(row), RS(row))} THEN "" ELSE "Cmp")
+     ELSE IF res.i # I \/ res.f # F \/ Len(res.bits) # I + F THEN "Layout"
+     ELSE IF \E row \in U : FxValOn(res, env, U, row) #
+                (CASE x.op = "Add" -> LS(row) + RS(row) [] x.op = "Sub" -> LS(row) - RS(row) [] x.op = "Mult" -> LS(row) * RS(row)) % (2^(I + F))
+          THEN "Arith"
+     ELSE ""
 =============================================================================
